@@ -264,6 +264,7 @@ class FnSpec:
         self._await = h.get('await')
         self._comp = h.get('comp')
         self.field_write = h.get('field_write')
+        self.contains_hook = h.get('contains')          # (ex, st, container, item) -> outcomes | None: `item in container` for objects with __contains__
         self.closure_vals = {}
         self.trace_spec = None
         self.opaque_fstrings = h.get('opaque_fstrings', False)
